@@ -189,6 +189,10 @@ struct World {
     http: SocketAddr,
     tcp: SocketAddr,
     tcpd: SocketAddr,
+    /// TCP listener of cluster `tn`, which starts without any backend
+    tcpn: SocketAddr,
+    /// clusters that have a live (mock) backend right now
+    live: BTreeSet<String>,
     https: Option<SocketAddr>,
     be: BTreeMap<String, MockBackend>,
     _dead: Reservation,
@@ -287,8 +291,9 @@ impl World {
         let http = w.add_http_listener().map_err(e("http listener"))?;
         let tcp = w.add_tcp_listener().map_err(e("tcp listener"))?;
         let tcpd = w.add_tcp_listener().map_err(e("tcp listener 2"))?;
+        let tcpn = w.add_tcp_listener().map_err(e("tcp listener 3"))?;
         let mut be = BTreeMap::new();
-        for c in ["a", "b", "t"] {
+        for c in ["a", "b", "t", "tn", "td", "n"] {
             be.insert(c.to_string(), MockBackend::listen().map_err(e("backend"))?);
         }
         let dead = dead_addr().map_err(|x| format!("dead addr: {x}"))?;
@@ -305,6 +310,8 @@ impl World {
         w.add_backend("d", "d-0", dead.addr).map_err(e("backend d"))?;
         w.add_tcp_route(tcp, "t", be["t"].addr, None).map_err(e("tcp route"))?;
         w.add_tcp_route(tcpd, "td", dead.addr, None).map_err(e("tcp route 2"))?;
+        w.add_cluster(cluster("tn")).map_err(e("cluster tn"))?;
+        w.add_tcp_frontend(tcpn, "tn").map_err(e("tcp frontend tn"))?;
         let https = if cfg.tls {
             let l = w.add_https_listener().map_err(e("https listener"))?;
             w.add_https_frontend(l, "localhost", "/", "a").map_err(e("https frontend"))?;
@@ -326,6 +333,8 @@ impl World {
             http,
             tcp,
             tcpd,
+            tcpn,
+            live: ["a", "b", "t"].iter().map(|s| s.to_string()).collect(),
             https,
             be,
             _dead: dead,
@@ -1030,11 +1039,38 @@ impl World {
 impl World {
     /// connect a TCP client and make sure its bytes reach the backend and back
     fn t_open(&mut self, key: &str) -> String {
+        self.t_open_on(key, "t")
+    }
+
+    /// `cluster`: t (live backend), tn (no backend until `backend add tn`),
+    /// td (a backend that refuses, plus a live one after `backend add td`)
+    fn t_open_on(&mut self, key: &str, cluster: &str) -> String {
         if self.clients.contains_key(key) {
             self.remove_client(key);
         }
-        let exp = self.expect(key, "t");
-        let Ok(conn) = RawConn::connect(self.tcp) else {
+        let addr = match cluster {
+            "t" => self.tcp,
+            "tn" => self.tcpn,
+            "td" => self.tcpd,
+            _ => return "bad-op".into(),
+        };
+        let exp = self.expect(key, cluster);
+        if !self.live.contains(cluster) {
+            // no backend to go to: sozu can only close, whatever the gate said
+            let Ok(mut c) = RawConn::connect(addr) else { return "connect-failed".into() };
+            let limit = T_IO + Duration::from_secs((self.cfg.conn * 3) as u64);
+            let end = c.read_until_closed_or(limit);
+            if !matches!(end, ReadEnd::Closed | ReadEnd::Reset) {
+                self.alarm(
+                    "stuck-session-not-reclaimed",
+                    format!("TCP client of cluster {cluster}, which has no available backend, is still connected after {limit:?}"),
+                );
+            }
+            let _ = exp;
+            self.mon.dirty = true;
+            return format!("no-backend-{end:?}");
+        }
+        let Ok(conn) = RawConn::connect(addr) else {
             self.tag("connect-failed");
             return "connect-failed".into();
         };
@@ -1046,7 +1082,7 @@ impl World {
         let mut found: Option<RawConn> = None;
         let mut closed = !wrote;
         while found.is_none() && !closed && Instant::now() < until {
-            if let Some(mut bc) = self.be["t"].try_accept() {
+            if let Some(mut bc) = self.be[cluster].try_accept() {
                 // the line follows the connection at once when it is ours
                 let _ = bc.read_until(b"\n", Duration::from_millis(400));
                 if bc.received == line.as_bytes() {
@@ -1059,20 +1095,20 @@ impl World {
             closed = peer_closed(&mut self.clients.get_mut(key).unwrap().conn);
             std::thread::sleep(Duration::from_millis(1));
         }
-        let ctx = format!("TCP {tag}");
+        let ctx = format!("TCP {cluster} {tag}");
         match found {
             Some(mut bc) => {
                 self.reached_backend += 1;
-                self.note(key, "t", exp, Gate::Passed, &ctx);
+                self.note(key, cluster, exp, Gate::Passed, &ctx);
                 let _ = bc.write_all(b"pong\n", T_IO);
                 let cl = self.clients.get_mut(key).unwrap();
                 let ok = cl.conn.read_until(b"pong\n", T_IO) == ReadEnd::Done;
-                cl.backs.push(("t".into(), bc));
+                cl.backs.push((cluster.to_string(), bc));
                 if ok { "relayed".into() } else { "no-echo".into() }
             }
             None if closed => {
                 let gate = if self.under_admission() { Gate::Refused } else { Gate::Unclear };
-                self.note(key, "t", exp, gate, &ctx);
+                self.note(key, cluster, exp, gate, &ctx);
                 self.remove_client(key);
                 "closed".into()
             }
@@ -1401,6 +1437,39 @@ impl World {
                 );
                 "limit-mismatch".into()
             }
+        }
+    }
+
+    /// give cluster tn / td / n a live backend, or take it away again
+    fn backend_op(&mut self, what: &str, cluster: &str) -> String {
+        if !matches!(cluster, "tn" | "td" | "n") {
+            return "bad-op".into();
+        }
+        let addr = self.be[cluster].addr;
+        let id = format!("{cluster}-live");
+        match what {
+            "add" if !self.live.contains(cluster) => match self.w.add_backend(cluster, &id, addr) {
+                Ok(()) => {
+                    self.live.insert(cluster.to_string());
+                    "added".into()
+                }
+                Err(e) => format!("add-failed:{e:?}"),
+            },
+            "remove" if self.live.contains(cluster) => {
+                // sessions of a removed backend would decrement metrics that were
+                // dropped with it (a documented recovery path, not a leak): end them first
+                self.close_all();
+                self.sync();
+                match self.w.remove_backend(cluster, &id, addr) {
+                    Ok(()) => {
+                        self.live.remove(cluster);
+                        "removed".into()
+                    }
+                    Err(e) => format!("remove-failed:{e:?}"),
+                }
+            }
+            "add" | "remove" => "unchanged".into(),
+            _ => "bad-op".into(),
         }
     }
 
@@ -1831,7 +1900,8 @@ impl World {
         self.mon.multi.clear();
         self.mon.dirty = false;
         let mut res = vec![];
-        for cluster in ["a", "b", "t"] {
+        let tn_added = self.backend_op("add", "tn") == "added";
+        for cluster in ["tn", "a", "b", "t"] {
             let l = self.limit_of(cluster);
             if l == 0 || l > 4 {
                 continue;
@@ -1846,7 +1916,7 @@ impl World {
                 let until = Instant::now() + Duration::from_secs(2);
                 loop {
                     let before = self.oracle.len();
-                    o = if cluster == "t" { self.t_open(&key) } else { self.h_get(&key, cluster, false, None) };
+                    o = if cluster.starts_with('t') { self.t_open_on(&key, cluster) } else { self.h_get(&key, cluster, false, None) };
                     let good = if i < l { o == "200" || o == "relayed" } else { o == "429" || o == "closed" };
                     if good || Instant::now() >= until {
                         break;
@@ -1860,13 +1930,16 @@ impl World {
             }
             for i in 0..=l {
                 let key = format!("probe{i}");
-                if cluster == "t" {
+                if cluster.starts_with('t') {
                     self.t_end(&key, "close-client");
                 } else {
                     self.h_end(&key, "close");
                 }
             }
             self.sync();
+        }
+        if tn_added {
+            self.backend_op("remove", "tn");
         }
         self.set_limit(saved);
         format!("probe: {}", res.join(" "))
@@ -1939,6 +2012,7 @@ impl World {
             "h" => {
                 let key = format!("h{}", arg(2));
                 match arg(1) {
+                    "get" if arg(3) == "n" && !self.live.contains("n") => self.h_simple(&key, "nobackend"),
                     "get" => {
                         let n = num(4).max(1);
                         let mut o = vec![];
@@ -1965,7 +2039,7 @@ impl World {
             "t" => {
                 let key = format!("t{}", arg(2));
                 match arg(1) {
-                    "open" => self.t_open(&key),
+                    "open" => self.t_open_on(&key, if arg(3).is_empty() { "t" } else { arg(3) }),
                     "ping" => self.t_ping(&key),
                     "close-client" | "reset-client" | "close-backend" | "reset-backend" | "shutwr-client"
                     | "shutwr-backend" => self.t_end(&key, arg(1)),
@@ -1979,6 +2053,7 @@ impl World {
                 _ => "bad-op".into(),
             },
             "limit" => self.set_limit(num(1) as u64),
+            "backend" => self.backend_op(arg(1), arg(2)),
             "storm" => self.storm(arg(1), num(2), num(3)),
             "sleep" => {
                 std::thread::sleep(Duration::from_millis(num(1).min(5000) as u64));
@@ -2272,6 +2347,7 @@ fn gen_case(rng: &mut Rng, thorough: bool) -> Vec<String> {
                 &[
                     ("get", 40), ("hend", 15), ("limit", 10), ("topen", 10), ("tclose", 6), ("upgrade", 3),
                     ("abort", 4), ("default", 4), ("tls", if cfg.tls { 4 } else { 0 }), ("getclose", 4), ("check", 2),
+                    ("nb", 7),
                 ],
             );
             match kind {
@@ -2309,8 +2385,52 @@ fn gen_case(rng: &mut Rng, thorough: bool) -> Vec<String> {
                 "default" => ops.push(format!("h {} {c}", rng.pick(&["dead", "nobackend", "nohost", "bad"]))),
                 "tls" => ops.push(format!("s {}", rng.pick(&["ok", "abort"]))),
                 "getclose" => ops.push(format!("h getclose {c} {cl}")),
+                // clusters whose backend comes and goes
+                "nb" => ops.push(match rng.below(8) {
+                    0 | 1 => format!("t open {c} tn"),
+                    2 => format!("t open {c} td"),
+                    3 => "backend add tn".to_string(),
+                    4 => "backend add td".to_string(),
+                    5 => "backend add n".to_string(),
+                    6 => format!("h get {c} n 1"),
+                    _ => format!("backend remove {}", rng.pick(&["tn", "td", "n"])),
+                }),
                 _ => ops.push("check".into()),
             }
+        }
+        // a slot taken while the cluster has no available backend must come
+        // back: admission without backend, a long-lived connection re-using the
+        // freed session token, backend (re)added, then the same IP again
+        if rng.chance(2, 5) {
+            let tc = *rng.pick(&["tn", "tn", "td"]);
+            let mut block = vec![format!("backend remove {tc}")];
+            if rng.chance(2, 3) {
+                block.push(format!("limit {}", rng.range(1, 2)));
+            }
+            for _ in 0..rng.range(1, 2) {
+                block.push(format!("t open {} {tc}", rng.below(6)));
+            }
+            for _ in 0..rng.range(1, 3) {
+                block.push(match rng.below(3) {
+                    0 => format!("t open {}", rng.below(6)),
+                    _ => format!("h get {} {} 1", rng.below(6), rng.pick(&["a", "b"])),
+                });
+            }
+            block.push(format!("backend add {tc}"));
+            block.push(format!("t open {} {tc}", rng.below(6)));
+            if rng.chance(1, 2) {
+                block.push(format!("t open {} {tc}", rng.below(6)));
+            }
+            // never inside the "close everything, then limit 0" run
+            let spots: Vec<usize> = (1..=ops.len())
+                .filter(|i| {
+                    ops.get(*i).map_or(true, |o| {
+                        !(o.starts_with("h close ") || o.starts_with("t close-client ") || o.starts_with("limit "))
+                    })
+                })
+                .collect();
+            let at = *rng.pick(&spots);
+            ops.splice(at..at, block);
         }
     } else {
         let max = *rng.pick(&[1usize, 1, 2, 3, 4, 5, 8, 10]);
@@ -2366,6 +2486,15 @@ fn corpus() -> Vec<Vec<String>> {
         // keep-alive connection left idle: front_timeout reclaims it, zombie checker on
         v(&["fp-new max=40 perip=0 front=1 back=1 req=1 conn=1 zombie=2 evict=0 bovr=- tls=0",
             "h get 0 a 1", "h get 1 b 1", "t open 0", "sleep 2500", "h get 0 a 1", "t ping 0"]),
+        // a per-IP slot taken while the cluster has no available backend is given back
+        // (TCP without backend / with a refusing backend, HTTP without backend), even
+        // when a long-lived connection re-uses the freed session token meanwhile
+        v(&["fp-new max=50 perip=1 front=30 back=30 req=30 conn=1 zombie=0 evict=0 bovr=- tls=0",
+            "t open 0 tn", "h get 1 a 1", "backend add tn", "t open 2 tn", "t open 3 tn", "t close-client 2",
+            "t open 3 tn", "h get 4 n", "h get 5 b 1", "backend add n", "h get 4 n 2", "h get 0 n 1",
+            "t open 0 td", "t open 1", "backend add td", "t open 4 td", "backend remove td", "limit 2",
+            "t open 0 td", "t open 1 td", "h get 2 a 1", "h get 3 a 1", "backend add td", "t open 0 td", "t open 1 td",
+            "t open 2 td"]),
         // eviction when the accept queue is full
         v(&["fp-new max=3 perip=0 front=10 back=10 req=10 conn=1 zombie=0 evict=1 bovr=- tls=0",
             "storm http 7 1", "storm tcp 6 0", "h get 0 a 1"]),
@@ -2384,7 +2513,7 @@ fn reenable_witness() -> Vec<String> {
 
 // ------------------------------------------------------------------- main --
 
-const RULE: &str = "one case = one real sozu worker thread (rig) with HTTP, TCP (+HTTPS) listeners, clusters a,b (live mock backends), d (backend refuses), n (no backend), t/td (TCP), configured from the case's first op (max_connections, max_connections_per_ip, per-cluster override, timeouts, zombie interval, evict_on_queue_full); then a seeded sequence of session atoms: families mix 50% (H1 keep-alive/close/POST, client abort before/while/after the backend answers, backend close/reset/partial/stall, websocket upgrade, 404/503/400 answers, partial and silent clients, TCP relay/half-close/reset/dead backend/idle, TLS ok/abort/handshake-only/garbage/cut hello/idle, 1 s timeouts), perip 32% (per-(cluster, source IP) limit 0..3, raised/lowered/disabled at runtime, cluster override, checked against a reference monitor of slot holders), storm 18% (max_connections 1..10, more clients than the limit, load drop, fresh clients, eviction on/off). After every case: all peers closed, every resource gauge of QueryMetrics (client.connections, slab.entries, buffer.in_use, http/websocket.active_requests, protocol.*, backend.connections, backend.pool.size, connections_per_backend, accept_queue.*, h2.connection.*) must equal the idle baseline taken after a warm-up, worker log must not report a gauge underflow, Status watchdog, then a slot probe (limit 1: each cluster admits exactly one connection) and the footprint again. non-trivial = at least one session reached a backend and the footprint was compared; distinct = distinct op list";
+const RULE: &str = "one case = one real sozu worker thread (rig) with HTTP, TCP (+HTTPS) listeners, clusters a,b (live mock backends), d (backend refuses), n (no backend), t/td/tn (TCP: live, refusing, none), configured from the case's first op (max_connections, max_connections_per_ip, per-cluster override, timeouts, zombie interval, evict_on_queue_full); then a seeded sequence of session atoms: families mix 50% (H1 keep-alive/close/POST, client abort before/while/after the backend answers, backend close/reset/partial/stall, websocket upgrade, 404/503/400 answers, partial and silent clients, TCP relay/half-close/reset/dead backend/idle, TLS ok/abort/handshake-only/garbage/cut hello/idle, 1 s timeouts), perip 32% (per-(cluster, source IP) limit 0..3, raised/lowered/disabled at runtime, cluster override, checked against a reference monitor of slot holders; 40% of them with a block where a TCP client is admitted while its cluster tn/td has no available backend, long-lived connections re-use the freed session token, the backend is (re)added at runtime and the same IP connects again; clusters tn, td, n get and lose a live backend through AddBackend/RemoveBackend), storm 18% (max_connections 1..10, more clients than the limit, load drop, fresh clients, eviction on/off). After every case: all peers closed, every resource gauge of QueryMetrics (client.connections, slab.entries, buffer.in_use, http/websocket.active_requests, protocol.*, backend.connections, backend.pool.size, connections_per_backend, accept_queue.*, h2.connection.*) must equal the idle baseline taken after a warm-up, worker log must not report a gauge underflow, Status watchdog, then a slot probe (limit 1: each cluster admits exactly one connection) and the footprint again. non-trivial = at least one session reached a backend and the footprint was compared; distinct = distinct op list";
 
 fn judge_fail(ops: &[String], run: &CaseRun, case: i64) -> Vec<Value> {
     run.oracle
